@@ -493,7 +493,7 @@ fn trees_real(prop: &str, seed: u64) -> i32 {
 fn c09(seed: u64) -> i32 {
     let rs = run_seed(seed, "C09-miri", 0);
     let mut case = pf::gen_case(rs, Tier::Quick);
-    case.seq = shrink_seq(&case.seq, 700, 40);
+    case.seq = shrink_seq(&case.seq, 400, 30);
     if case.prob == 0 {
         case.prob = 65536;
     }
